@@ -217,8 +217,6 @@ def run(ctx):
     from vf.checks import c37
     allc3 = c3gen.all_cases(ctx.tier, ctx.seed)
     c3 = [(c["fam"] + "/" + c["feat"], c37.c3_sources(allc3, [k])) for k, c in enumerate(allc3)]
-    if ctx.quick:
-        c3 = c3[ctx.seed % 2::2]
     ctx.note("c3_programs", len(c3))
     irs = pg.initials(ctx.tier, ctx.seed)
     from vf.checks import c15
